@@ -27,6 +27,8 @@ def run(ctx):
   rule_closed(ctx)
   rule_pack(ctx)
   rule_bm(ctx)
+  rule_scatter(ctx)
+  ctx.expect("R-C14-SCATTER", 2, "truncated and untruncated path")
   ctx.expect("R-C14-BM", 3, "loop body, initial state, result")
   ctx.expect("R-C14-CLOSED", 8, "pieces of both functions + domains + reference cross-validation")
   ctx.expect("R-C14-PACK", 5, "python side, C++ range, word assembly, export, setup")
@@ -55,6 +57,90 @@ def exponent_of(p):
   return e
 
 
+def _ev_int(p, env):
+  """integer value of an extracted term under env {Atom: int} (pow / shifts / floor division / mod / min / max / abs); raises ValueError when not evaluable."""
+  from fractions import Fraction
+  if isinstance(p, Const):
+    if isinstance(p.v, (int, bool)):
+      return int(p.v)
+    raise ValueError("constant")
+  p = as_poly(p)
+  tot = Fraction(0)
+  for mono, c in p.t.items():
+    term = Fraction(c)
+    for a, e in mono:
+      term *= Fraction(_ev_atom(a, env)) ** e
+    tot += term
+  if tot.denominator != 1:
+    raise ValueError("fraction")
+  return int(tot)
+
+
+def _ev_atom(a, env):
+  if a in env:
+    return env[a]
+  k = a.kind
+  args = a.args
+  if k == "pow" and len(args) == 2:
+    b, e = _ev_int(args[0], env), _ev_int(args[1], env)
+    if e < 0:
+      raise ValueError("negative exponent")
+    return b ** e
+  if k == "shl":
+    return _ev_int(args[0], env) << _ev_int(args[1], env)
+  if k == "shr":
+    return _ev_int(args[0], env) >> _ev_int(args[1], env)
+  if k == "fdiv":
+    d = _ev_int(args[1], env)
+    if d == 0:
+      raise ValueError("zero")
+    return _ev_int(args[0], env) // d
+  if k == "mod":
+    d = _ev_int(args[1], env)
+    if d == 0:
+      raise ValueError("zero")
+    return _ev_int(args[0], env) % d
+  if k in ("min", "max"):
+    vs = [_ev_int(x, env) for x in args]
+    return min(vs) if k == "min" else max(vs)
+  if k == "abs":
+    return abs(_ev_int(args[0], env))
+  if k in ("int",) and len(args) == 1:
+    return _ev_int(args[0], env)
+  raise ValueError("atom %s" % k)
+
+
+def grid_disagreement(w, n, m, fname):
+  """First (n, m) with 1 <= n <= 12, 0 <= m <= n on which the function's own return term (path chosen by its own conditions) differs from Rueppel's count."""
+  na, ma = n.as_atom(), m.as_atom()
+  for nv in range(1, 13):
+    for mv in range(0, nv + 1):
+      env = {na: nv, ma: mv}
+      val = regions.Valuation(env)
+      got = None
+      for kind, v_, s_ in w.terminals:
+        if kind != "return":
+          continue
+        try:
+          if all(regions.eval_cond(c, val) == pol for c, pol, node in s_.pc):
+            got = _ev_int(v_, env)
+            break
+        except (regions.Unknown, ValueError, ZeroDivisionError, TypeError):
+          got = None
+          break
+      if got is None:
+        continue
+      cnt = refmath.lfsr_count(nv, mv)
+      want = cnt if fname == "LfsrCount" else None
+      if fname != "LfsrCount":
+        # log2 of the probability: count / 2^n is a power of two
+        want = cnt.bit_length() - 1 - nv
+      if got != want:
+        return "%s(%d, %d) evaluates to %d; the number of sequences of length %d with linear complexity %d is %d%s" % (
+            fname, nv, mv, got, nv, mv, cnt, "" if fname == "LfsrCount" else " (log2 probability %d)" % want)
+  return None
+
+
 def rule_closed(ctx):
   R = "R-C14-CLOSED"
   repo = ctx.repo
@@ -68,6 +154,7 @@ def rule_closed(ctx):
     w.run()
     outside = []
     n_pieces = 0
+    pending = []
     for e in w.events:
       if e.kind == "raise":
         outside.append([(c, pol) for c, pol, node in e.state.pc])
@@ -82,7 +169,7 @@ def rule_closed(ctx):
       ex = exponent_of(v) if fname == "LfsrCount" else v + shift
       key = norm(e.node)
       if ex is None:
-        ctx.record(R, f.where, key, None, "returned value %r is not a power of two with a linear exponent" % (v,))
+        pending.append((key, "returned value %r is not a power of two with a linear exponent" % (v,)))
         continue
       n_pieces += 1
       facts = algebra.linear_facts(e.facts) + lemmas
@@ -105,8 +192,17 @@ def rule_closed(ctx):
         ctx.violation(R, f.where, key, "exponent %r is neither 2m - 1 nor 2n - 2m (Rueppel: count = 2^min(2m-1, 2n-2m))" % (ex,))
     ok, d = regions.equivalent_mixed(outside, lambda v: v[m] < 0 or v[n] <= 0 or v[m] > v[n], mains=[n, m]) if outside else (False, "no outside-domain branch")
     ctx.record(R, f.where, ("count = 0" if zero_kind == "return0" else "raises") + " <=> not (n >= 1 and 0 <= m <= n)", ok, d)
-    if n_pieces < 3:
-      ctx.incomplete(R, f.where, "pieces", "expected three pieces (m = 0, m <= n//2, m > n//2), found %d" % n_pieces)
+    if n_pieces < 3 or pending:
+      # the pieces are not in the shape the proof rule knows: evaluate the extracted return terms on a grid of (n, m) - a disagreement with the
+      # reference distribution is a concrete counterexample (a violation); agreement on the grid proves nothing and stays undecided
+      witness = grid_disagreement(w, n, m, fname)
+      if witness is not None:
+        ctx.violation(R, f.where, "closed form on a grid of (n, m)", witness)
+      else:
+        for key_, why_ in pending:
+          ctx.record(R, f.where, key_, None, why_)
+        if n_pieces < 3:
+          ctx.incomplete(R, f.where, "pieces", "expected three pieces (m = 0, m <= n//2, m > n//2), found %d" % n_pieces)
   # reference distribution cross-validated by the checker's own Berlekamp-Massey
   maxlen = 14 if ctx.tier == "thorough" else 11
   bad = None
@@ -407,3 +503,58 @@ def check_bm(paths, vis, head, n, sc, sb, m, dg, NB):
       if not eq(L2, L):
         probs.append("L changes although 2L > n")
   return sorted(set(probs))
+
+
+# ------------------------------------------------------------------ SCATTER (the length handed to Berlekamp-Massey is the length of that sub-sequence)
+def rule_scatter(ctx):
+  """extended_nist_suite.LinearComplexityScatter: sub-sequence i of Scatter(bits, step) holds bits i, i + step, ...: ceil((N - i) / step) of them, N the number of
+  bits scattered (n, or max_block_size * step after truncation).  LinearComplexity must get exactly that length - one bit more is a phantom trailing zero, and
+  the shortest LFSR of the longer sequence is not the shortest LFSR of the sub-sequence - and LfsrLogProbability the same length."""
+  R = "R-C14-SCATTER"
+  repo = ctx.repo
+  f = repo.func("randomness_tests.extended_nist_suite", "LinearComplexityScatter")
+  w = sym.Walker(repo, f)
+  w.run()
+  bits, n = P("param", f.params()[0]), P("param", f.params()[1])
+  seen = {}
+  for e in w.events:
+    if e.kind != "call" or e.data["name"] != "repo:randomness_tests.berlekamp_massey:LinearComplexity" or len(e.data["args"]) < 2:
+      continue
+    sq, size = as_poly(e.data["args"][0]).as_atom(), as_poly(e.data["args"][1])
+    if sq is None or sq.kind != "idx":
+      seen["?"] = "LinearComplexity is not applied to one scattered sub-sequence"
+      continue
+    sc = as_poly(sq.args[0]).as_atom()
+    i_ = as_poly(sq.args[1])
+    if sc is None or sc.kind != "call" or repr(sc.args[0]) != "lit('randomness_tests.util:Scatter')":
+      seen["?"] = "the sub-sequences do not come from util.Scatter"
+      continue
+    B, step = as_poly(sc.args[1]), as_poly(sc.args[2])
+    N = None
+    if B == bits:
+      N = n
+    else:
+      ba = B.as_atom()
+      if ba is not None and ba.kind == "band":
+        for x, y in ((ba.args[0], ba.args[1]), (ba.args[1], ba.args[0])):
+          ya = (as_poly(y) + 1).as_atom()
+          if as_poly(x) == bits and ya is not None and ya.kind == "pow" and as_poly(ya.args[0]).as_int() == 2:
+            N = as_poly(ya.args[1])
+    if N is None:
+      seen[repr(B)[:40]] = "number of scattered bits not recognised"
+      continue
+    want = sym.mk("fdiv", N + step - 1 - i_, step)
+    key = "N = %s" % repr(N)[:50]
+    if size != want:
+      seen[key] = "sub-sequence %s has ceil((N - i) / step) bits, LinearComplexity is told %s" % (repr(i_)[:20], repr(size)[:90])
+    else:
+      seen.setdefault(key, None)
+    # the probability is taken for the same length
+    for e2 in w.events:
+      if e2.kind == "call" and e2.data["name"] == "repo:randomness_tests.berlekamp_massey:LfsrLogProbability" and len(e2.data["args"]) >= 2 and \
+         isinstance(e2.data["args"][1], Poly) and e2.data["args"][1] == as_poly(e.data["value"]) and as_poly(e2.data["args"][0]) != size:
+        seen[key] = "LfsrLogProbability is evaluated for another length than the complexity was computed for"
+  if not seen:
+    ctx.incomplete(R, f.where, "lengths", "no LinearComplexity call on a scattered sub-sequence found")
+  for key, why in sorted(seen.items()):
+    ctx.record(R, f.where, "length of sub-sequence i (%s)" % key, why is None, why or "size = (N + step - 1 - i) // step for LinearComplexity and LfsrLogProbability alike")
